@@ -4,6 +4,7 @@ package c18
 
 import (
 	"context"
+	"encoding/binary"
 	"errors"
 	"testing"
 
@@ -18,6 +19,7 @@ import (
 	"github.com/NethermindEth/juno/utils/log"
 
 	"verif/harness/internal/gen"
+	"verif/harness/internal/node"
 	"verif/harness/internal/stats"
 )
 
@@ -229,4 +231,103 @@ func TestKnownDowngradeBelowUnappliedOptIn(t *testing.T) {
 	if !stats.Known(keyDowngradeUnapplied) && reproduced {
 		t.Errorf("ORACLE[refusal-missing] %s: a binary lacking the opted-into, half-run optional migration 1 was accepted (same-binary opt-out is refused: %v)", keyDowngradeUnapplied, errOptOut)
 	}
+}
+
+// TestKnownHistoryPruneStaleStagerCheckpoint: 40 blocks, every block changes the nonce of one contract (one nonce
+// history entry per block), L1 head = local head, --prune-mode=29 (floor = block 10).
+//
+//	start 1: cancelled while the history-prune migration is STAGING the keeper window: the runner persists the
+//	         checkpoint (stager = X > 10, restorer = 0, floor = 10); the history of blocks 10..X-1 is in scratch.
+//	start 2: resumes, stages X..39, restores the history buckets from scratch, wipes the scratch namespace - and the
+//	         process dies right after that commit, before the runner's commit that records the migration as applied
+//	         and deletes the checkpoint.
+//	start 3: resumes from the SAME checkpoint: stages X..39 only (scratch is empty below X), wipes the live history
+//	         buckets, restores from scratch. Completes and is recorded as applied.
+//
+// The nonce history of the retained blocks 10..X-1 is gone; the uninterrupted upgrade keeps it.
+func TestKnownHistoryPruneStaleStagerCheckpoint(t *testing.T) {
+	const (
+		n        = 40
+		retained = 29
+		floor    = n - 1 - retained
+	)
+	o := handDB(n, func(int) int { return 1 })
+	addr := gen.F(0xc0ffee)
+	for i := 1; i < n; i++ {
+		su := o.blocks[i].SU
+		su.StateDiff.Nonces = map[felt.Felt]*felt.Felt{addr: gen.FP(uint64(i))}
+		harnessErr(core.WriteStateUpdateByBlockNum(o.base, uint64(i), su), "witness state update")
+		harnessErr(core.WriteDeprecatedContractNonceHistory(o.base, &addr, gen.FP(uint64(i-1)), uint64(i)), "witness nonce history")
+	}
+	o.l1Head = &core.L1Head{BlockNumber: n - 1, BlockHash: o.blocks[n-1].B.Hash, StateRoot: gen.FP(1)}
+	harnessErr(core.WriteL1Head(o.base, o.l1Head), "witness L1 head")
+	fl := flags{prune: true, retained: retained}
+	histKey := func(b uint64) []byte { return db.DeprecatedContractNonceHistoryAtBlockKey(&addr, b) }
+
+	ref := runOnce(o.base.Copy(), o.u.Net, fl, 0, 0, noGate)
+	refImg := ref.f.image()
+	if ref.runErr != nil || o.imgFloor(refImg) != floor {
+		t.Fatalf("harness: uninterrupted upgrade: %v, floor %d", ref.runErr, o.imgFloor(refImg))
+	}
+	for b := uint64(floor); b < n; b++ {
+		if has, _ := refImg.Has(histKey(b)); !has {
+			t.Fatalf("harness: the uninterrupted upgrade does not keep the nonce history of retained block %d", b)
+		}
+	}
+	rg := ref.f.stageOps[idxHistoryPruner]
+	reproduced := false
+	for cancelAt := rg[0] + 3; cancelAt < rg[1] && !reproduced; cancelAt += 2 {
+		// start 1
+		r1 := runOnce(o.base.Copy(), o.u.Net, fl, 0, cancelAt, noGate)
+		img1 := r1.f.image()
+		_, inter := readMeta(img1, nRealMigrations)
+		st := inter[idxHistoryPruner]
+		if len(st) != 24 {
+			continue
+		}
+		x, restorer := binary.BigEndian.Uint64(st[0:8]), binary.BigEndian.Uint64(st[8:16])
+		if restorer != 0 || x <= floor+1 || x > n-1 {
+			continue // not a stager checkpoint strictly inside the keeper window
+		}
+		if o.staleStagerClass(img1) {
+			t.Fatalf("harness: the stager's own interruption (checkpoint %d) left unstaged history below its checkpoint", x)
+		}
+		// start 2: crash right after the last commit made inside the migration (the scratch wipe)
+		probe := runOnce(img1.Copy(), o.u.Net, fl, 0, 0, noGate)
+		crashAt := 0
+		for i, s := range probe.f.commitStage {
+			if s == idxHistoryPruner {
+				crashAt = i + 1
+			}
+		}
+		r2 := runOnce(img1, o.u.Net, fl, crashAt, 0, noGate)
+		img2 := r2.f.image()
+		md2, _ := readMeta(img2, nRealMigrations)
+		if !r2.crashed || md2.CurrentVersion.Has(idxHistoryPruner) || !o.staleStagerClass(img2) {
+			t.Logf("cancel at op %d (checkpoint %d), crash after commit %d: crashed=%v applied=%b in-class=%v: not in the class", cancelAt, x, crashAt, r2.crashed, md2.CurrentVersion, o.staleStagerClass(img2))
+			continue
+		}
+		for b := uint64(floor); b < n; b++ {
+			if has, _ := img2.Has(histKey(b)); !has {
+				t.Fatalf("harness: the crash image itself already lost the nonce history of block %d", b)
+			}
+		}
+		// start 3
+		r3 := runOnce(img2, o.u.Net, fl, 0, 0, noGate)
+		final := r3.f.image()
+		md3, inter3 := readMeta(final, nRealMigrations)
+		var lost []uint64
+		for b := uint64(floor); b < n; b++ {
+			if has, _ := final.Has(histKey(b)); !has {
+				lost = append(lost, b)
+			}
+		}
+		t.Logf("start 1 cancelled at op %d: checkpoint (stager %d, restorer 0, floor %d); start 2 died after commit %d (scratch wiped, not yet applied); start 3: Run=%v applied=%b intermediate=%v, floor %d; nonce history lost for retained blocks %v",
+			cancelAt, x, floor, crashAt, r3.runErr, md3.CurrentVersion, inter3, o.imgFloor(final), lost)
+		reproduced = r3.runErr == nil && md3.CurrentVersion.Has(idxHistoryPruner) && len(lost) > 0 && !sameDump(node.Dump(final), node.Dump(refImg))
+		if reproduced && !stats.Known(keyPruneStaleStager) {
+			t.Errorf("ORACLE[final-image-differs] %s: cancelled in the stager (checkpoint %d), restarted, died after the scratch wipe, restarted: the completed, applied upgrade lost the nonce history of retained blocks %v", keyPruneStaleStager, x, lost)
+		}
+	}
+	stats.KnownFindingWitness(t, keyPruneStaleStager, reproduced)
 }
